@@ -61,7 +61,7 @@ CHECKS = {
              "oracle on fault-free histories; statement-level and mid-statement DB faults and executor aborts with a "
              "narrowly relaxed oracle. Exploration level: histories and fault points are sampled.",
         note="Pipelines stay in a fragment where all back ends are exact; DB-fault violations are attributed to the "
-             "failed statement (closed set, all 11 listed as known findings); PostgreSQL/MySQL/BigQuery/Spark not run.",
+             "failed statement (closed set of 11 fault points, all listed as known findings, plus one fault-free finding about case-insensitive SQLite table names); PostgreSQL/MySQL/BigQuery/Spark not run.",
         technique="deterministic simulation with fault injection: seeded multi-client histories + DB/executor fault plans vs reference map",
         ref="DESIGN.md section 4 (C20)"),
     "C19": dict(
